@@ -32,6 +32,8 @@ def shards(tier):
         {"name": "wide.np.jit", "mode": "jit", "backend": "np", "fn": "wide", "n": 1 if q else 20},
         {"name": "wide.np.interp", "mode": "interp", "backend": "np", "fn": "wide", "n": 1 if q else 2, "Ns": [40, 66]},
         {"name": "wide.torch", "mode": "jit", "backend": "torch", "fn": "wide", "n": 1 if q else 4, "Ns": [40, 66]},
+        {"name": "huge.np.jit", "mode": "jit", "backend": "np", "fn": "huge", "Ns": [2100] if q else [2050, 2100, 4100], "no_hooks": 1},
+        {"name": "huge.torch", "mode": "jit", "backend": "torch", "fn": "huge", "Ns": [2100] if q else [2050, 2100, 4100], "no_hooks": 1},
         {"name": "forms.torch", "mode": "jit", "backend": "torch", "fn": "rand", "n": 30 if q else 1000, "big": 8 if q else 300, "forms": 1},
     ]
     if not q:
@@ -82,11 +84,15 @@ def regauge(rng, gs, ps, r):
 def check_state(rec, B, tg, tp, r, subsets, rng, dense=True, extras=True):
     N = tg.shape[1] // 2
     S = B.State(tg.copy(), tp.copy(), r)
-    sc = {"rows": _show(tg[r:N], tp[r:N]), "N": N, "r": r}
+    if N <= 300:
+        sc = {"rows": _show(tg[r:N], tp[r:N]), "N": N, "r": r}
+    else:   # thousands of rows: identify the state by a hash of its tableau
+        import hashlib
+        sc = {"tableau_blake2": hashlib.blake2b(tg.astype(np.uint8).tobytes() + tp.astype(np.uint8).tobytes(), digest_size=12).hexdigest(), "N": N, "r": r}
     before = snapshot(S)
     for A in subsets:
         A = list(A)
-        case = {"state": sc, "A": A}
+        case = {"state": sc, "A": A if len(A) <= 300 else {"n": len(A), "first": A[:5], "last": A[-5:], "sum": int(sum(A))}}
         e_g = O.entropy_gf2(tg[r:N], N, A)
         nt = 0 < len(A) < N and r < N
         if dense and N <= 6:
@@ -112,9 +118,14 @@ def check_state(rec, B, tg, tp, r, subsets, rng, dense=True, extras=True):
             rec.check("ent.full", abs(v - r) < 1e-6, case, r > 0, expected=r, observed=v, tags=tags)
         # other forms of the same subsystem: tuple, ndarray of indices, permuted indices, boolean mask
         forms = [("tuple", tuple(A)), ("ndarray", np.array(A)), ("perm", [A[i] for i in rng.permutation(len(A))]), ("mask", _mask_arg(B, A, N))]
-        if B.name == "np":
+        if N > 300:
+            forms = forms[1::2]
+        elif B.name == "np":
             forms += [("np.int64 list", [np.int64(a) for a in A]), ("bool list", [bool(q in A) for q in range(N)]),
                       ("int32 array", np.array(A, dtype=np.int32))]
+            # index arrays of the narrowest types that hold the indices (q + N does not fit in them on wide registers)
+            forms += [("%s array" % np.dtype(dt).name, np.array(A, dtype=dt)) for dt in (np.int8, np.uint8, np.int16, np.uint16, np.uint32, np.uint64)
+                      if max(A) <= np.iinfo(dt).max]
         for nm, arg in forms:
             before_arg = np.array(B.np(arg) if nm in ("mask", "ndarray") else arg).copy()
             ok, y = rec.attempt("ent.mask_vs_index", dict(case, form=nm), lambda: S.entropy(arg))
@@ -257,7 +268,7 @@ def run_wide(shard, rec, B):
     """registers of 40..130 qubits (word / tile thresholds): structured states whose entropies are known analytically
     (Bell pairs across the cut, in two generator orders) and random states judged by the oracle's own GF(2) rank."""
     rng = gen.rng_for(rec)
-    Ns = shard.get("Ns", [40, 64, 66, 72, 80, 128, 130])
+    Ns = shard.get("Ns", [40, 64, 66, 72, 80, 100, 128, 130, 200, 256])
     for t in range(shard["n"]):
         for N in Ns:
             h = N // 2
@@ -275,3 +286,63 @@ def run_wide(shard, rec, B):
             check_state(rec, B, tg, tp, 0, subs, rng, dense=False, extras=(N <= 72))
             r = int(rng.integers(1, N))
             check_state(rec, B, tg, tp, r, subs, rng, dense=False, extras=(N <= 72))
+
+
+def ghz_tableau(N):
+    """X^N, Z_{i-1}Z_i with destabilizers Z_0 and X_i..X_{N-1}."""
+    gs = np.zeros((2 * N, 2 * N), dtype=np.int64)
+    gs[0, 0::2] = 1
+    gs[N, 1] = 1
+    for i in range(1, N):
+        gs[i, 2 * (i - 1) + 1] = gs[i, 2 * i + 1] = 1
+        gs[N + i, 2 * i::2] = 1
+    return gs, np.zeros(2 * N, dtype=np.int64)
+
+
+def _symplectic_ok(gs, N):
+    """canonical commutation pattern of a tableau, by one exact float matmul (registers too wide for the pairwise table)."""
+    g = gs.astype(np.float64)
+    lam = (g[:, 0::2] @ g[:, 1::2].T + g[:, 1::2] @ g[:, 0::2].T) % 2
+    want = np.zeros((2 * N, 2 * N))
+    want[np.arange(N), np.arange(N) + N] = want[np.arange(N) + N, np.arange(N)] = 1
+    return np.array_equal(lam, want)
+
+
+def run_huge(shard, rec, B):
+    """registers beyond 2048 qubits: overlap counts inside the entropy kernels exceed what half precision / 11-bit
+    accumulators hold exactly. Structured states with analytically known entropies, generators made dense by row products
+    (signs tracked by the table oracle, tableau validity by an exact matmul); the GF(2) oracle judges every region."""
+    rng = gen.rng_for(rec)
+    for N in shard["Ns"]:
+        h = N // 2
+        for fam in (("ghz.alldense",) if rec.tier == "quick" else ("ghz", "ghz.alldense", "bell")):
+            tg, tp = ghz_tableau(N) if fam.startswith("ghz") else bell_tableau(2 * h, "interleaved")
+            M = tg.shape[1] // 2
+            if fam.startswith("ghz"):  # the all-Z generator (product of Z_{2i}Z_{2i+1}) next to the all-X one: overlap N on every region
+                for j in range(3, M, 2):
+                    tg[1], tp[1] = O.mul(tg[1], tp[1], tg[j], tp[j])
+                    tg[M + j], tp[M + j] = O.mul(tg[M + j], tp[M + j], tg[M + 1], tp[M + 1])
+            if fam == "ghz.alldense":
+                # every generator absorbs the all-Z one (and half of them the all-X one): all pairwise overlaps are about N, so
+                # no sparse pair can stand in for a miscounted dense one
+                for i in range(2, M):
+                    for src in ((1, 0) if rng.integers(2) else (1,)):
+                        tg[i], tp[i] = O.mul(tg[i], tp[i], tg[src], tp[src])
+                        tg[M + src], tp[M + src] = O.mul(tg[M + src], tp[M + src], tg[M + i], tp[M + i])
+            # more dense generators: a few target rows absorb about half of the others (D_j <- D_j D_t keeps the tableau valid)
+            for tgt in (rng.choice(np.arange(2, M), size=4, replace=False) if fam != "ghz.alldense" else []):
+                for j in np.nonzero(rng.integers(0, 2, M))[0]:
+                    if j == tgt:
+                        continue
+                    tg[tgt], tp[tgt] = O.mul(tg[tgt], tp[tgt], tg[j], tp[j])
+                    tg[M + j], tp[M + j] = O.mul(tg[M + j], tp[M + j], tg[M + tgt], tp[M + tgt])
+            tp = tp % 4
+            if not _symplectic_ok(tg, M) or np.any(tp % 2):
+                rec.inconclusive("huge %s tableau invalid" % fam)
+                continue
+            rec.bump("huge_tableaux_built")
+            rec.note("huge_max_row_weight_%s_%d" % (fam, M), int((O.letters(tg[:M]) != 0).sum(-1).max()))
+            subs = [list(range(M - 1)), gen.rand_subset(rng, M, M // 2), list(range(1, M)), list(range(M // 2)), list(range(8)), [M - 1]]
+            k = 2 if rec.tier == "quick" else 6     # the port's GF(2) rank is a python loop: seconds per call at this size
+            check_state(rec, B, tg, tp, 0, subs[:k], rng, dense=False, extras=False)
+            check_state(rec, B, tg, tp, int(rng.integers(1, 9)), subs[:max(1, k // 3)], rng, dense=False, extras=False)
